@@ -1,5 +1,6 @@
 import Operon.Lemmas.C05
 import Operon.Lemmas.C05Conserve
+import Operon.Lemmas.C05Calls
 import Operon.Gen.AtpLocks
 /-!
 # C05 — energy store operations are atomic under every thread interleaving
@@ -22,13 +23,16 @@ def skOf (ws : List Nat) : List Sk := ws.flatMap fun w => [.acq w, .touch w, .re
 /-- **Source shape** (extracted, E3): each of the four operations is exactly one `with self._lock` region — two for
     `transfer_to`, the second on the peer — every access to a mutable shared field lies inside the region of its
     own object, no region is nested in another (the two store locks are never held together), and the lock is a
-    `threading.Lock`/`RLock`. -/
+    `threading.Lock`/`RLock`.  The only foreign code invoked while a store lock is held is the `on_state_change`
+    observer (called by `_update_state`); the lock discipline is checked for the class's own code, what the observer does
+    is an ASSUMPTION of `c05_deadlock_free`: it returns or raises and takes no lock of ANY store (`Obs`). -/
 theorem c05_shapes_wellLocked :
     Gen.AtpLocks.consume = skOf [0] ∧ Gen.AtpLocks.regenerate = skOf [0] ∧ Gen.AtpLocks.convert = skOf [0] ∧
     Gen.AtpLocks.transferTo = skOf [0, 1] ∧
     (∀ sk ∈ [Gen.AtpLocks.consume, Gen.AtpLocks.regenerate, Gen.AtpLocks.convert, Gen.AtpLocks.transferTo],
       Sk.flat none sk = true) ∧
-    (Gen.AtpLocks.lockKind = "Lock" ∨ Gen.AtpLocks.lockKind = "RLock") := by decide
+    (Gen.AtpLocks.lockKind = "Lock" ∨ Gen.AtpLocks.lockKind = "RLock") ∧
+    Gen.AtpLocks.callbacksUnderLock = ["on_state_change"] := by decide
 
 /-- **Serializability at the level of atomic actions.**  Whatever the interleaving of source lines, every quiescent
     configuration reached (no lock held — in particular the final one) is reached by executing the critical regions
@@ -58,7 +62,14 @@ theorem c05_final_state_is_sequential_run (cls : Classifier) (obs : Nat → Obs)
     (actrun_runTrace cls obs ac0 ac tr hrun).2⟩
 
 /-- **No deadlock**: no reachable configuration with unfinished work is stuck — opposite-direction transfers
-    included, since no thread ever waits for a lock while holding one. -/
+    included, since no thread ever waits for a lock while holding one.
+    Assumption (visible in `c05_shapes_wellLocked`): the `on_state_change` observer, which `_update_state` calls while
+    the region's lock is held, takes no lock of any store — it is modelled as `Obs` (returns or raises).  An observer that
+    calls back into a store would wait for a lock while holding one: `A.on_state_change = λ_. B.regenerate(1)` with
+    `B.on_state_change = λ_. A.regenerate(1)` deadlocks two threads, an observer calling its own store deadlocks one
+    (`threading.Lock` is not reentrant).  That is outside the property's operation list and outside this theorem.
+    Model detail: after a failed withdrawal the model still runs an (effect-free) deposit region, i.e. takes the peer's
+    lock, which the code does not — conservative for this theorem, invisible in stores and returns. -/
 theorem c05_deadlock_free (cut : Cut) (ac0 : ACfg) (c : Cfg Loc Store)
     (hs : Star Step (ac0.toRCfg cut).toCfg c) (hnf : ¬ c.final) : ∃ c', Step c c' :=
   deadlock_free_regions (ac0.toRCfg cut) c hs hnf
@@ -164,21 +175,77 @@ theorem c05_holdings_plus_spends_bounded (cls : Classifier) (obs : Nat → Obs) 
   simp only [ACfg.ofCalls] at h
   omega
 
-/-- **Per-call atomicity, partial**: every call other than `transfer_to` is a single critical region, so for
-    programs without transfers the atomic actions ARE the calls and `c05_serializable` is serializability of
-    the calls.  (`transfer_to` is two regions: see the witness below.) -/
-theorem c05_per_call_serializable_partial (cs : List Call) (h : ∀ c ∈ cs, c.isTransfer = false) :
-    (cs.flatMap Call.acts).length = cs.length ∧ ∀ c ∈ cs, c.acts.length = 1 := by
-  constructor
-  · induction cs with
-    | nil => rfl
-    | cons c cs ih =>
-      have hc := h c (by simp)
-      have := ih (fun c' hc' => h c' (by simp [hc']))
-      cases c <;> simp_all [Call.acts, Call.isTransfer]
-  · intro c hc
-    have := h c hc
-    cases c <;> simp_all [Call.acts, Call.isTransfer]
+/-- **Per-call serializability, partial: programs without `transfer_to`.**  Threads run programs of consume /
+    regenerate / convert calls (`ACfg.ofCalls`, no transfer) on shared stores; the regions are cut into source lines in
+    any faithful way and the lines interleave arbitrarily (`Star Step`).  Every quiescent configuration reached — the
+    final one in particular — is the result of executing the CALLS one after the other in some order `order` (a list
+    of (thread, call) pairs run by `runCalls`, each call atomically): (i) for every thread, the calls it has made in
+    `order`, in that order, followed by the calls it still has to make are exactly its program — nothing lost,
+    duplicated or reordered; (ii) the stores are those of that sequential execution; (iii) so are every thread's
+    return values.  (`transfer_to` is two regions and is NOT atomic as a call: witness below.) -/
+theorem c05_per_call_serializable_partial (cls : Classifier) (obs : Nat → Obs) (cut : Cut) (hc : cut.Faithful cls obs)
+    (st : Nat → Store) (progs : List (List Call)) (hnt : ∀ p ∈ progs, ∀ c ∈ p, c.isTransfer = false)
+    (c : Cfg Loc Store) (hs : Star Step ((ACfg.ofCalls st progs).toRCfg cut).toCfg c) (hq : c.quiescent) :
+    ∃ (ac : ACfg) (order : List (Nat × Call)), c = (ac.toRCfg cut).toCfg ∧
+      (∀ t, ((order.filter (fun e => e.1 == t)).map (·.2)) ++ (todoAt ac t).map Act.toCall = progs.getD t []) ∧
+      ac.st = (runCalls cls obs ⟨st, fun _ => {}⟩ order).st ∧
+      (∀ t, t < ac.threads.length → locAt ac t = (runCalls cls obs ⟨st, fun _ => {}⟩ order).locs t) := by
+  obtain ⟨ac, tr, hceq, hproj, hst, hloc⟩ :=
+    c05_final_state_is_sequential_run cls obs cut hc (ACfg.ofCalls st progs) c hs hq
+  have hsingle : ∀ e ∈ tr, e.2.single = true := by
+    intro e he
+    obtain ⟨t, a⟩ := e
+    have h1 : a ∈ proj t tr ++ todoAt ac t := List.mem_append_left _ (mem_proj he)
+    rw [hproj t, todoAt_ofCalls] at h1
+    exact acts_single _ (getD_noTransfer progs hnt t) a h1
+  refine ⟨ac, tr.map (fun e => (e.1, e.2.toCall)), hceq, ?_, ?_, ?_⟩
+  · intro t
+    rw [proj_map_toCall, ← List.map_append, hproj t, todoAt_ofCalls]
+    exact flatMap_toCall _ (getD_noTransfer progs hnt t)
+  · rw [runCalls_map cls obs tr _ hsingle]
+    rw [locAt_ofCalls] at hst
+    exact hst
+  · intro t ht
+    rw [runCalls_map cls obs tr _ hsingle]
+    have h := hloc t ht
+    rw [locAt_ofCalls] at h
+    exact h
+
+/-! ### The safety clauses for interleavings (not only for the atomic semantics)
+
+    The theorems above about `ActStep` speak of regions executed one at a time.  By `c05_serializable` every quiescent
+    configuration of the line-level semantics is such a configuration, so they hold there too — for every faithful
+    cut, every interleaving of the lines, any number of threads.  (Inside a region — a non-quiescent configuration —
+    an unlocked reader such as `get_balance` may see the store between two lines; with an arbitrary cut nothing can
+    be said about those intermediate values, and the property's observation points are the returns and the final
+    balances.) -/
+
+/-- **Balances never go negative, debt stays within its limit — under every interleaving**, at every quiescent point. -/
+theorem c05_nonneg_interleaved (cls : Classifier) (obs : Nat → Obs) (cut : Cut) (hc : cut.Faithful cls obs) (ac0 : ACfg)
+    (c : Cfg Loc Store) (hs : Star Step (ac0.toRCfg cut).toCfg c) (hq : c.quiescent)
+    (h0 : ∀ j, (ac0.st j).WF ∧ (ac0.st j).debt ≤ (ac0.st j).maxDebt) :
+    ∀ j, (c.st j).WF ∧ (c.st j).debt ≤ (c.st j).maxDebt := by
+  obtain ⟨ac, rfl, ha⟩ := c05_serializable cls obs cut hc ac0 c hs hq
+  intro j
+  exact ⟨c05_nonneg cls obs ac0 ac ha (fun j => (h0 j).1) j, c05_debt_within_limit cls obs ac0 ac ha h0 j⟩
+
+/-- **The sum of successful spends never exceeds what was available — under every interleaving** (per store). -/
+theorem c05_spends_bounded_interleaved (cls : Classifier) (obs : Nat → Obs) (cut : Cut) (hc : cut.Faithful cls obs)
+    (ac0 : ACfg) (c : Cfg Loc Store) (hs : Star Step (ac0.toRCfg cut).toCfg c) (hq : c.quiescent) (j : Nat)
+    (h0 : ∀ j, (ac0.st j).WF) :
+    (c.st j).consumed - (ac0.st j).consumed ≤ (ac0.st j).room + pendingInflow j ac0.threads := by
+  obtain ⟨ac, rfl, ha⟩ := c05_serializable cls obs cut hc ac0 c hs hq
+  exact c05_spends_bounded_by_available cls obs ac0 ac ha j h0
+
+/-- **Nothing is created — under every interleaving, across all stores**: at every quiescent point the net worth of
+    the stores plus everything charged to successful spends is at most the initial value plus the total of the
+    `regenerate` amounts of the programs, transfers (whose halves may be arbitrarily far apart) included. -/
+theorem c05_nothing_is_created_interleaved (cls : Classifier) (obs : Nat → Obs) (cut : Cut) (hc : cut.Faithful cls obs)
+    (N : Nat) (st : Nat → Store) (progs : List (List Call)) (hN : ∀ p ∈ progs, ∀ c ∈ p, ∀ a ∈ c.acts, a.lock < N)
+    (c : Cfg Loc Store) (hs : Star Step ((ACfg.ofCalls st progs).toRCfg cut).toCfg c) (hq : c.quiescent) :
+    heldSum N c.st ≤ heldSum N st + regenTotal progs := by
+  obtain ⟨ac, rfl, ha⟩ := c05_serializable cls obs cut hc (ACfg.ofCalls st progs) c hs hq
+  exact c05_holdings_plus_spends_bounded cls obs N st progs hN ac ha
 
 -- FULL (false on current tree): every execution is equivalent to a sequential order of the CALLS (transfer_to
 -- included).  `transfer_to` releases its own lock before it takes the peer's, so other calls can run between
@@ -218,6 +285,10 @@ example (cls : Classifier) (obs : Nat → Obs) : Cut.Faithful cls obs (fun a => 
     a regeneration and a pass of a background regeneration loop (`tickCall`) -/
 example : ∀ p ∈ [[Call.transfer 0 1 3 .atp, Call.consume 0 2 .atp true 5], [Call.transfer 1 0 4 .gtp, Call.regenerate 1 2 .atp],
     [tickCall 0 5]], ∀ c ∈ p, ∀ a ∈ c.acts, a.lock < 2 := by decide
+
+/-- programs meeting the hypothesis of `c05_per_call_serializable_partial` (no transfers), background loop included -/
+example : ∀ p ∈ [[Call.consume 0 2 .atp true 5, Call.convert 0 1], [Call.regenerate 0 2 .nadh], regenThread 0 5 3],
+    ∀ c ∈ p, c.isTransfer = false := by decide
 
 /-- a configuration meeting the hypotheses of the invariant theorems: two stores built by the constructor -/
 example : (∀ j, (st0 j).WF ∧ (st0 j).debt ≤ (st0 j).maxDebt) := by
